@@ -3,7 +3,6 @@ package patch
 import (
 	"errors"
 	"fmt"
-	"strings"
 
 	dtpb "github.com/google/fhir/go/proto/google/fhir/proto/r4/core/datatypes_go_proto"
 	"github.com/iancoleman/strcase"
@@ -580,15 +579,17 @@ func (e *Expression) getRefAndFieldForCollection(collection system.Collection, t
 func (e *Expression) unwrapOneof(obj proto.Message) proto.Message {
 	message := obj.ProtoReflect()
 	descriptor := message.Descriptor()
-	if name := string(descriptor.Name()); !(strings.HasSuffix(name, "ValueX") || name == "ContainedResource") {
-		return obj
-	}
 	oneofsNum := descriptor.Oneofs().Len()
 	if oneofsNum != 1 {
 		return obj
 	}
 
+	// Choice-typed elements (value[x], deceased[x], onset[x], …) are wrapped in a message whose
+	// single oneof is called "choice", whatever the wrapper itself is named.
 	oneof := descriptor.Oneofs().Get(0)
+	if name := string(descriptor.Name()); !(oneof.Name() == "choice" || name == "ContainedResource") {
+		return obj
+	}
 	field := message.WhichOneof(oneof)
 	if oneof == nil || field == nil {
 		return obj
